@@ -481,6 +481,78 @@ func c02ResolverText() *core.Space {
 	}
 }
 
+// c02SharedTemplate: two configs received copies of one template holding an expression (by Merge);
+// each defines the referenced name itself, one is read with the other as Env. Every copy is
+// evaluated in the tree it lives in, also when both are evaluated within one call.
+func c02SharedTemplate() *core.Space {
+	exprs := []struct{ text, main, env string }{
+		{"${name}-svc", "main-svc", "env-svc"},
+		{"${name}", "main", "env"},
+		{"${name:dflt}", "main", "env"},
+		{"<${name}|${name}>", "<main|main>", "<env|env>"},
+		{"${o.n}", "mo", "eo"},
+	}
+	radices := []int{len(exprs), 3}
+	return &core.Space{
+		Name: "template-copies-in-two-trees",
+		Size: product(radices...),
+		Text: func(i int) string {
+			d := mixedRadix(i, radices...)
+			return fmt.Sprintf("template {label: %q} merged into main {name: main, viaenv: ${alias}} and env {name: env, alias: ${label}}; main read with Env(env) through %s", exprs[d[0]].text, []string{"struct{Label, Viaenv}", "struct{Viaenv, Label}", "getters in both orders"}[d[1]])
+		},
+		Exec: func(i int) core.Result {
+			d := mixedRadix(i, radices...)
+			e := exprs[d[0]]
+			var res core.Result
+			pi := core.Guard(func() {
+				opts := []ucfg.Option{ucfg.PathSep("."), ucfg.VarExp}
+				tmpl := mustCfg(M{"label": e.text}, opts...)
+				main, env := ucfg.New(), ucfg.New()
+				for _, st := range []struct {
+					c   *ucfg.Config
+					own M
+				}{{main, M{"name": "main", "o": M{"n": "mo"}, "viaenv": "${alias}"}}, {env, M{"name": "env", "o": M{"n": "eo"}, "alias": "${label}"}}} {
+					if err := st.c.Merge(tmpl, opts...); err != nil {
+						panic("harness: " + err.Error())
+					}
+					if err := st.c.Merge(st.own, opts...); err != nil {
+						panic("harness: " + err.Error())
+					}
+				}
+				ro := append([]ucfg.Option{ucfg.Env(env)}, opts...)
+				var label, viaenv string
+				var err error
+				switch d[1] {
+				case 0:
+					var t struct{ Label, Viaenv string }
+					err = main.Unpack(&t, ro...)
+					label, viaenv = t.Label, t.Viaenv
+				case 1:
+					var t struct{ Viaenv, Label string }
+					err = main.Unpack(&t, ro...)
+					label, viaenv = t.Label, t.Viaenv
+				case 2:
+					var m map[string]interface{}
+					if err = main.Unpack(&m, ro...); err == nil {
+						label, _ = m["label"].(string)
+						viaenv, _ = m["viaenv"].(string)
+					}
+				}
+				if err != nil || label != e.main || viaenv != e.env {
+					res = core.Fail("template", "COPY-EVALUATED-IN-ANOTHER-TREE", fmt.Sprintf("expected label=%q viaenv=%q, got label=%q viaenv=%q err=%v", e.main, e.env, label, viaenv, err))
+					return
+				}
+				res.Nontrivial = true
+				res.Outcome = "own-tree"
+			})
+			if pi != nil {
+				return apiPanic("template", pi)
+			}
+			return res
+		},
+	}
+}
+
 func c02Typed() *core.Space {
 	type tcase struct {
 		ref    string
@@ -619,9 +691,9 @@ func init() {
 		},
 		Spaces: func(tier string) []*core.Space {
 			if tier == "thorough" {
-				return []*core.Space{c02Typed(), c02ResolverText(), c02Space("expressions-depth<=2", c02Exprs(true, true))}
+				return []*core.Space{c02Typed(), c02ResolverText(), c02SharedTemplate(), c02Space("expressions-depth<=2", c02Exprs(true, true))}
 			}
-			return []*core.Space{c02Typed(), c02ResolverText(), c02Space("expressions-depth<=1+nested-defaults", c02Exprs(true, false))}
+			return []*core.Space{c02Typed(), c02ResolverText(), c02SharedTemplate(), c02Space("expressions-depth<=1+nested-defaults", c02Exprs(true, false))}
 		},
 	})
 }
